@@ -1123,7 +1123,10 @@ class Payload(object):
         if not isinstance(method, utils.STRING_TYPES):
             raise ValueError("Method name must be a string.")
 
-        if not self.id and not isinstance(self.id, utils.NUMERIC_TYPES):
+        if not self.id and (
+            isinstance(self.id, bool)
+            or not isinstance(self.id, utils.NUMERIC_TYPES)
+        ):
             # Generate a request ID (a numeric ID, even 0, is kept as is)
             self.id = str(uuid.uuid4())
 
